@@ -29,7 +29,7 @@ def write_if_changed(path, text):
         f.write(text)
 
 
-def module_src(name, decls, std, err, qualified, attr_path=False):
+def module_src(name, decls, std, err, qualified, attr_path=False, dup_key=False):
     lines = []
     lines.append("use mc::log::{self, K};")
     lines.append("use microscpi::{self as scpi, Error, Interface};")
@@ -56,9 +56,16 @@ def module_src(name, decls, std, err, qualified, attr_path=False):
     # ordinary methods without #[scpi] sit between the handlers, as in real interfaces
     lines.append("    #[allow(dead_code)]")
     lines.append("    fn helper_first(&self) -> u8 { 1 }")
-    for i, d in enumerate(decls):
+    handlers = list(decls)
+    if dup_key:
+        # the first handler carries the first two declarations as two `cmd` keys of one attribute
+        handlers = [(decls[0], decls[1])] + list(decls[2:])
+    for i, d in enumerate(handlers):
         asyn = "async " if i % 2 == 1 else ""
-        lines.append('    #[scpi(cmd = "%s")]' % d)
+        if isinstance(d, tuple):
+            lines.append('    #[scpi(cmd = "%s", cmd = "%s")]' % d)
+        else:
+            lines.append('    #[scpi(cmd = "%s")]' % d)
         lines.append('    %sfn h%d(&mut self) -> Result<(), Error> { log::push(K::Enter, b"%d"); Ok(()) }' % (asyn, i, i))
         if i % 2 == 0:
             lines.append("    #[allow(dead_code)]")
@@ -152,8 +159,8 @@ microscpi = { path = "../../../subject/microscpi" }
     for n, r in enumerate(plan["reject"]):
         name = "r%d" % n
         names.append(name)
-        write_if_changed(os.path.join(d, "src", name + ".rs"), module_src(name, r["decls"], r["std"], r["err"], "rej::" + name, r.get("attr_path", False)))
-        expect.append({"name": name, "decls": r["decls"], "std": r["std"], "err": r["err"], "attr_path": r.get("attr_path", False), "error": r["error"]})
+        write_if_changed(os.path.join(d, "src", name + ".rs"), module_src(name, r["decls"], r["std"], r["err"], "rej::" + name, r.get("attr_path", False), r.get("dup_key", False)))
+        expect.append({"name": name, "decls": r["decls"], "std": r["std"], "err": r["err"], "attr_path": r.get("attr_path", False), "dup_key": r.get("dup_key", False), "error": r["error"]})
     write_if_changed(os.path.join(d, "src", "lib.rs"), "".join("pub mod %s;\n" % n for n in names))
     keep = set(n + ".rs" for n in names) | {"lib.rs"}
     for f in os.listdir(os.path.join(d, "src")):
